@@ -92,6 +92,9 @@ def gen_plan(seed, tier):
         else:
             plan['solve_kw'] = {'xtol': r2.choice([1e-4, 1e-2, 1e-6])}
         if r2.random() < 0.25: plan['solve_kw'] = {}
+    if r2.random() < 0.5:
+        plan['paths'].append('stopresume')
+        plan['stop_save_every'] = r2.choice([None, None, 1, 2])
     return plan
 
 
@@ -279,6 +282,11 @@ def _run(plan, run, violate, stats):
     if 'solve' in plan['paths'] and N >= 3:
         run_solve_path(plan, run, violate, stats)
 
+    # ---------------- run to a stop (the restart file written AT the stop is the last word on disk), then both the stopped
+    # original and a solver restored from that file are continued the same way
+    if 'stopresume' in plan['paths'] and N >= 3:
+        run_stopresume_path(plan, run, violate, stats)
+
     # ---------------- periodic dump + crash at an enumerated seam crossing
     crng = sub_rng(plan['crash_seed'], 'crash')
     if 'periodic' in plan['paths'] or 'torn' in plan['paths']:
@@ -375,6 +383,80 @@ def _solve_kwargs(plan):
     kw = dict(plan.get('solve_kw') or {})
     if 'strategy' in kw: kw['strategy'] = getattr(st, kw['strategy'])
     return kw
+
+
+def run_stopresume_path(plan, run, violate, stats):
+    from mystic.solvers import LoadSolver
+    N = plan['N']; fs = run.fs
+    G1 = max(1, N // 2); G2 = N + 1
+    splan = dict(plan); splan['midrun'] = []
+    splan['ops'] = plan['ops'] + [{'op': 'set', 'what': 'limits', 'arg': [G1, None]}]
+    ex = Exec(run, splan, 'stopresume')
+    h = ex.h
+    path = fs.path('stop.pkl')
+    every = plan.get('stop_save_every')
+    h.solver.SetSaveFrequency(every, path)
+    run.owner = 'stopresume'
+    kw = _solve_kwargs(plan) if plan.get('solve_kw') else {}
+    try:
+        h.solver.Solve(h.cost, callback=env.SimCallback(), **kw)
+    except (env.SimCrash, env.SimHang):
+        raise
+    except Exception as e:
+        run.probe('c06.stopresume.reference_raised.%s' % type(e).__name__); return
+    import os
+    if not os.path.exists(path):
+        violate('restore_failed_to_step', 'the run stopped but no restart file was written although one is registered', path='stopresume'); return
+    with simfs._real_open(path, 'rb') as f: blob = f.read()
+    rng0 = rng_state()
+    stopped = h.snap()
+    run.probe('c06.stopresume.runs')
+    def carry_on(hh, solver, owner):
+        run.owner = owner
+        hh.step_snaps = []
+        solver.SetEvaluationLimits(G2, None)
+        solver.Solve(callback=env.SimCallback())
+        return list(hh.step_snaps)
+    try:
+        ref = carry_on(h, h.solver, 'stopresume')
+    except (env.SimCrash, env.SimHang):
+        raise
+    except Exception as e:
+        run.probe('c06.stopresume.reference_raised.%s' % type(e).__name__); return
+    fs.thaw(); fs.subdir = 'stopresume-new'
+    p2 = fs.path('restart.pkl')
+    with simfs._real_open(p2, 'wb') as f: f.write(blob)
+    tags = {'path': 'stopresume', 'save_every': every}
+    try:
+        s2 = LoadSolver(p2)
+    except Exception as e:
+        violate('restore_failed_to_step', 'LoadSolver of the restart file written at the stop raised %s: %s' % (type(e).__name__, str(e)[:200]), **tags); return
+    h2 = engine.Harness(run, splan, [])
+    h2.solvers = {'orig': s2}; h2.cur = 'orig'; h2.passed_cost = True
+    d = first_diff(strip(stopped), strip(h2.snap(s2)))
+    if d:
+        field = d.split('/')[1].split('[')[0].split('(')[0].split('#')[0] if '/' in d else d
+        violate('restore_diverged@%s' % field, 'the restart file written at the stop differs from the stopped solver: %s' % d[:300], **tags)
+        return
+    set_rng_state(rng0)
+    stats['restores'] += 1
+    try:
+        got = carry_on(h2, s2, 'stopresume-new')
+    except (env.SimCrash, env.SimHang):
+        raise
+    except Exception as e:
+        violate('restore_failed_to_step', 'restored from the restart file written at the stop, continuing raised %s: %s'
+                % (type(e).__name__, str(e)[:200]), **tags); return
+    stats['restore_steps'] += len(got)
+    if len(got) != len(ref):
+        violate('restore_diverged@generations', 'path=stopresume: the restored solver ran %d more iterations, the stopped original %d'
+                % (len(got), len(ref)), **tags); return
+    for j, (a, b) in enumerate(zip(ref, got)):
+        d = first_diff(strip(a), strip(b))
+        if d:
+            field = d.split('/')[1].split('[')[0].split('(')[0].split('#')[0] if '/' in d else d
+            violate('restore_diverged@%s' % field, 'path=stopresume: continued after the stop, iteration %d differs: %s' % (j + 1, d[:300]), **tags)
+            return
 
 
 def run_solve_path(plan, run, violate, stats):
